@@ -100,7 +100,7 @@ def main():
     hooks_commits = [l.strip() for l in open(f"{ROOT}/tools/hook_commits.txt")] if os.path.exists(f"{ROOT}/tools/hook_commits.txt") else []
     m = {
         "version": 1,
-        "setup_cmd": "cd /verif/engines && CARGO_NET_OFFLINE=true cargo build --release --offline --workspace",
+        "setup_cmd": "/verif/tools/setup.sh",
         "hooks": {
             "guard": "--cfg zcash_librustzcash_verif (rustc cfg, set in /verif/engines/.cargo/config.toml)",
             "enable": "engines build /repo crates by path with RUSTFLAGS=--cfg zcash_librustzcash_verif into /verif/target",
